@@ -255,68 +255,18 @@ def relational_mul_pow(ctx, report):
         npaths += paths
         # ---- pow_mod
         f = mod.funcs["pm"]
-        cut = loops.CutLoop(f)
         pre = rng("p0") + rng("p1") + rng("p2") + [K(2) - n]
-        phi_vars = [var("p%d" % cut.phi_param_index(i)) for i in range(len(cut.phis))]
-        cand = set(range(len(cut.phis)))  # candidate invariant: phi_i < n
-        fails = []
-
-        def inv(S):
-            out = []
-            for i in range(len(cut.phis)):
-                out += [-phi_vars[i], phi_vars[i] - K(MAX)]
-                if i in S:
-                    out.append(phi_vars[i] - n + K(1))
-            return out
-
-        def run(func, C0, goal):
-            """-> (ok for all paths, walker)"""
-            dd = dag.build(func, mod)
-            ww = linrel.Walker(C0)
-            ww.summaries[MUL_MOD] = summary(None, {})
-            ok = True
-            np_ = 0
-            for C, r in ww.value(dd.ret, list(C0)):
-                np_ += 1
-                if goal is not None and not goal(C, r):
-                    ok = False
-            return ok, ww, np_
-
-        for i in sorted(cand):
-            for fn in cut.entry_value(i):
-                ok, ww, _ = run(fn, pre, lambda C, r: entails_le0(C, r - n + K(1)))
-                if not ok:
-                    cand.discard(i)
-        changed = True
-        while changed:
-            changed = False
-            for i in sorted(cand):
-                for fn in cut.step_value(i):
-                    ok, ww, _ = run(fn, pre + inv(cand), lambda C, r: entails_le0(C, r - n + K(1)))
-                    if not ok:
-                        cand.discard(i)
-                        changed = True
-        # with the inductive invariant: every operation / call of one iteration, and the result after the loop
-        pw_ob = 0
-        for i in range(len(cut.phis)):
-            for fn in cut.entry_value(i) + cut.step_value(i):
-                ok, ww, np_ = run(fn, pre + (inv(cand) if fn.params != f.params else []), None)
-                pw_ob += ww.obligations
-                npaths += np_
-                for what, node, _ in ww.failures:
-                    fails.append((what, "at %s (%s)" % (node.pretty()[:120], _loc(mod, node))))
-        ok, ww, np_ = run(cut.after_loop(), pre + inv(cand), lambda C, r: entails_le0(C, r - n + K(1)) and entails_le0(C, -r))
-        pw_ob += ww.obligations + 1
-        npaths += np_
-        if not ok:
-            fails.append(("result is outside [0, n)", "after the loop, under the inferred invariant {%s}" % ", ".join("%%%s < n" % cut.phis[i].res for i in sorted(cand))))
-        for what, node, _ in ww.failures:
-            fails.append((what, "at %s" % node.pretty()[:120]))
+        r = loops.check_loop(f, mod, pre, [("< n", lambda v: v - n + K(1))], summaries={MUL_MOD: summary(None, {})},
+                             result_goal=lambda C, res: entails_le0(C, res - n + K(1)) and entails_le0(C, -res))
+        fails = [(what, "at %s (%s)" % (node.pretty()[:120], _loc(mod, node))) for what, node in r["failures"]]
+        if r["after_ok"] is False:
+            fails.append(("result is outside [0, n)", "after the loop, under the inferred invariant {%s}" % ", ".join("%%%s %s" % x for x in r["invariant"])))
         report("pow_mod", sorted(set(fails)))
-        ctx.require(len(cut.phis) == 3, "pow_mod: %d loop-carried values (expected exponent, base, result)" % len(cut.phis))
-        ctx.log("pow_mod: inferred loop invariant {%s} over %d loop-carried values" % (", ".join("%%%s < n" % cut.phis[i].res for i in sorted(cand)), len(cut.phis)))
-        nob += pw_ob
-        ndis += pw_ob - len(set(fails))
+        ctx.require(r["phis"] == 3, "pow_mod: %d loop-carried values (expected exponent, base, result)" % r["phis"])
+        ctx.log("pow_mod: inferred loop invariant {%s} over %d loop-carried values" % (", ".join("%%%s %s" % x for x in r["invariant"]), r["phis"]))
+        nob += r["obligations"]
+        ndis += r["obligations"] - len(set(fails))
+        npaths += r["paths"]
     except linrel.Failure as e:
         raise AnalysisBroken("mul_mod / pow_mod are outside the fragment of the relational engine: %s" % e)
     except MemoryError as e:
